@@ -1047,6 +1047,8 @@ class FuncAnalysis:
                 return AV(base.kind, E, base.dp, base.ud, base.cls, base.why)
             if base.kind == "list" and base.cls == "obj":
                 return AV("obj", E, base.dp, base.ud, PART_CLASSES, base.why)
+            if base.kind == "tuple" and base.cls == "arrays" and not base.dp and not base.ud:
+                return AV("nd")          # one of the fresh index arrays of np.nonzero / np.where
             return AV("nd" if base.dp or base.ud else "unk", E, base.dp, base.ud, None, base.why)
         if base.kind == "seq":
             return AV("unk", E, base.dp if not isinstance(e.slice, ast.Slice) else base.dp, base.ud)
@@ -1067,6 +1069,10 @@ class FuncAnalysis:
             return out
         if base.kind == "sparse":
             return AV("unk", E, E, base.dp | base.ud)
+        if base.kind == "unk" and self.index_is_basic(e.slice, env) is False:
+            # something of unknown kind (what a caller-supplied function returned, ...) subscripted with an index ARRAY: for every array-like
+            # this is advanced indexing, which copies (assumption listed in the evidence)
+            return AV("nd")
         return AV("unk", E, E, base.dp | base.ud)
 
     # ---- calls
